@@ -84,6 +84,32 @@ pub fn run_case(t: &[u8]) -> String {
             })));
         }
     }
+    // validate-and-skip values through the Deserializer API (first document only) and next to a byte-buffer sibling
+    // (deserialize_bytes re-arms the pending-invalid-UTF-8 position)
+    f.push(format!("stream_lazy={}", guarded(move || {
+        let mut de = sonic_rs::Deserializer::from_slice(t);
+        ar(&de.deserialize::<LazyValue>())
+    })));
+    f.push(format!("stream_owned={}", guarded(move || {
+        let mut de = sonic_rs::Deserializer::from_slice(t);
+        ar(&de.deserialize::<OwnedLazyValue>())
+    })));
+    f.push(format!("stream_ign={}", guarded(move || {
+        let mut de = sonic_rs::Deserializer::from_slice(t);
+        ar(&de.deserialize::<serde::de::IgnoredAny>())
+    })));
+    f.push(format!("iter_lazy={}", guarded(move || {
+        match sonic_rs::Deserializer::from_slice(t).into_stream::<LazyValue>().next() {
+            Some(r) => ar(&r),
+            None => "none".to_string(),
+        }
+    })));
+    let mut tup = b"[".to_vec();
+    tup.extend_from_slice(t);
+    tup.extend_from_slice(b",\"x\"]");
+    f.push(format!("tupl_lazy={}", guarded(|| ar(&sonic_rs::from_slice::<(LazyValue, serde_bytes::ByteBuf)>(&tup)))));
+    f.push(format!("tupl_owned={}", guarded(|| ar(&sonic_rs::from_slice::<(OwnedLazyValue, serde_bytes::ByteBuf)>(&tup)))));
+    f.push(format!("tupl_ign={}", guarded(|| ar(&sonic_rs::from_slice::<(serde::de::IgnoredAny, serde_bytes::ByteBuf)>(&tup)))));
     // reference (spec adequacy only)
     f.push(format!("ref={}", match serde_json::from_slice::<serde_json::Value>(t) {
         Ok(_) => "A",
